@@ -17,6 +17,7 @@ import (
 	"io"
 	"net"
 	"net/http"
+	"net/http/cookiejar"
 	"strings"
 	"sync"
 	"time"
@@ -111,6 +112,60 @@ func (o *c11Origin) obs(id string) []c11Hit {
 	return append([]c11Hit(nil), o.hits[id]...)
 }
 
+// otherSetter applies one of the client's OTHER configuration methods - none of them is about redirects,
+// each must leave the redirect policy the client holds alone - and says which
+func otherSetter(rng *hk.Rand, c *req.Client, o *c11Origin) string {
+	switch rng.Intn(12) {
+	case 0, 1, 2:
+		d := time.Duration(20+rng.Intn(40)) * time.Second
+		c.SetTimeout(d)
+		return fmt.Sprintf("SetTimeout(%s)", d)
+	case 3:
+		j, _ := cookiejar.New(nil)
+		c.SetCookieJar(j)
+		return "SetCookieJar(new jar)"
+	case 4:
+		c.SetCookieJarFactory(func() *cookiejar.Jar { j, _ := cookiejar.New(nil); return j })
+		return "SetCookieJarFactory(...)"
+	case 5:
+		c.SetUserAgent("c11-harness")
+		return "SetUserAgent(...)"
+	case 6:
+		if rng.Bool() {
+			c.DisableKeepAlives()
+			return "DisableKeepAlives()"
+		}
+		c.EnableKeepAlives()
+		return "EnableKeepAlives()"
+	case 7:
+		c.SetCommonHeader("X-Other", "1")
+		return "SetCommonHeader(X-Other)"
+	case 8:
+		c.EnableForceHTTP1()
+		return "EnableForceHTTP1()"
+	case 9:
+		c.SetTLSHandshakeTimeout(5 * time.Second)
+		return "SetTLSHandshakeTimeout(5s)"
+	case 10:
+		c.SetCommonRetryCount(0)
+		return "SetCommonRetryCount(0)"
+	}
+	c.SetDial(o.dial)
+	return "SetDial(same)"
+}
+
+// applyOthers: 0-2 other configuration calls AFTER the policy was set (model: no effect)
+func applyOthers(r *hk.Run, rng *hk.Rand, c *req.Client, o *c11Origin) []string {
+	var done []string
+	if rng.Chance(50) {
+		for k, m := 0, rng.Range(1, 2); k < m; k++ {
+			done = append(done, otherSetter(rng, c, o))
+		}
+		r.Count("client.other-config-after-policy")
+	}
+	return done
+}
+
 // ---- policies ----
 
 type polSpec struct {
@@ -179,10 +234,16 @@ func mkAllowed(domain bool, hs []string, mode int) req.RedirectPolicy {
 	return f(arg...)
 }
 
+// blank entries ("" / " ": what strings.Split leaves of an empty or blank configuration value) name no host
+var c11Blank = 0 // set by genSpec: number of blank entries to add to the next allow-list
+
 func specAllowed(domain bool, as []authority, mode int) polSpec {
 	var hs []string
 	for _, a := range as {
 		hs = append(hs, a.render())
+	}
+	for ; c11Blank > 0; c11Blank-- {
+		hs = append(hs, []string{"", " "}[c11Blank%2])
 	}
 	id, name := oracleHostname, "PAllowedHost "
 	if domain {
@@ -231,6 +292,9 @@ func genSpec(rng *hk.Rand, pool []authority) polSpec {
 		n := rng.Range(1, len(pool))
 		if rng.Chance(8) {
 			n = 0 // no host named: everything is refused
+		}
+		if rng.Chance(12) {
+			c11Blank = rng.Range(1, 2)
 		}
 		var as []authority
 		for j := 0; j < n; j++ {
@@ -668,11 +732,13 @@ func c11Single(r *hk.Run, rng *hk.Rand, o *c11Origin, n int) {
 		genOverride(rng, &p, 25)
 		c := req.C().SetRedirectPolicy(specsMk(specs)...).SetDial(o.dial)
 		applyClientCreds(c, p.cred)
+		others := applyOthers(r, rng, c, o)
 		res := runChain(o, c, fmt.Sprintf("s%d", i), p, nil)
 		c.GetTransport().CloseIdleConnections()
 		coqPs, plain := specsCoq(specs)
 		in := p.desc()
 		in["policies"] = plain
+		in["then-configured"] = others
 		judgeChain(r, "chain", specs, p, &res, in)
 		r.Count(fmt.Sprintf("chain.credlevel=%d", p.cred))
 		r.Count(fmt.Sprintf("chain.hops=%d", len(p.targets)))
@@ -762,6 +828,11 @@ func c11Clients(r *hk.Run, rng *hk.Rand, o *c11Origin, n int) {
 				setAfterClone = true
 			}
 		}
+		opOther := func(k int) {
+			what := otherSetter(rng, world[k].c, o)
+			ops, opsDesc = append(ops, "OOther "+hk.CoqNat(k)), append(opsDesc, fmt.Sprintf("c%d.%s", k, what))
+			r.Count("client.op.other")
+		}
 		opClone := func(k int) {
 			world = append(world, cli{world[k].c.Clone(), world[k].specs})
 			ops, opsDesc = append(ops, "OClone "+hk.CoqNat(k)), append(opsDesc, fmt.Sprintf("c%d := c%d.Clone()", len(world)-1, k))
@@ -794,6 +865,9 @@ func c11Clients(r *hk.Run, rng *hk.Rand, o *c11Origin, n int) {
 				first, second = second, first
 			}
 			opSet(0, first)
+			if rng.Chance(50) {
+				opOther(0)
+			}
 			opClone(0)
 			if rng.Chance(40) {
 				opClone(rng.Intn(len(world)))
@@ -802,6 +876,9 @@ func c11Clients(r *hk.Run, rng *hk.Rand, o *c11Origin, n int) {
 				opDo(rng.Intn(len(world)))
 			}
 			opSet(rng.Intn(len(world)), second)
+			if rng.Chance(50) {
+				opOther(rng.Intn(len(world)))
+			}
 			if rng.Chance(30) {
 				opSet(rng.Intn(len(world)), nil) // SetRedirectPolicy(): keeps what is there
 			}
@@ -815,6 +892,8 @@ func c11Clients(r *hk.Run, rng *hk.Rand, o *c11Origin, n int) {
 					opClone(rng.Intn(len(world)))
 				case x < 60:
 					opNew()
+				case x < 75:
+					opOther(rng.Intn(len(world)))
 				default:
 					opDo(rng.Intn(len(world)))
 				}
